@@ -86,7 +86,8 @@ def cases(draw):
             'records': recs, 'selector': sel, 'additional': additional, 'input': form_in,
             'name_width': draw(st.sampled_from([30, 30, 12])),
             'name_justify': draw(st.sampled_from(['left', 'left', 'left', 'right'])),
-            'par_gz': draw(st.integers(0, 4)) == 0}
+            'par_gz': draw(st.integers(0, 4)) == 0,
+            'name_col_pos': draw(st.sampled_from([0, 0, 0, 1, 99]))}
 
 
 def close(got, want, rel=5.1e-4, absol=0.):
@@ -148,7 +149,10 @@ def run_case(case, ctx):
             stored = [x.rjust(wj) for x in names]
             labels.add('names_right_justified')
         pkgio.write_parameters(mdir, stored, dict((c, case['params'][c]) for c in case['columns']), order=perm_now,
-                               width=case['name_width'], fmt=case.get('col_format', 'D'), gz=bool(case.get('par_gz')))
+                               width=case['name_width'], fmt=case.get('col_format', 'D'), gz=bool(case.get('par_gz')),
+                               name_pos=case.get('name_col_pos', 0))
+        if case.get('name_col_pos', 0):
+            labels.add('model_name_not_first_column')
         if ipass:
             labels.add('table_rewritten_in_same_directory')
             d2 = os.path.join(d, 'pass2')
